@@ -9,7 +9,7 @@
  *           captured and searched for raw and hex encodings of every rotation of the magic;
  *   pass 2  the object sits in an exactly sized heap block, output discarded: any over-read is an ASan fault.
  *
- *   printer <A|B|C> <index> <seed>
+ *   printer <A|B|C|S> <index> <seed>      (S: printers of a struct / limb array: valid object, exact-size block, then adjacent magic)
  *     -> CLEAN name=<f> calls=<n> printed=<bytes> | LEAK name=<f> sample=<tag> mutation=<m> enc=<raw|hex> | END (index past the table)
  */
 #include "sysops.h"
@@ -140,6 +140,42 @@ static void handle(size_t nw, char **w) {
 	if (fam == 'A') { for (cnt = 0; PRINTERS_A[cnt].name; cnt++) {} name = idx < cnt ? PRINTERS_A[idx].name : NULL; }
 	else if (fam == 'B') { for (cnt = 0; PRINTERS_B[cnt].name; cnt++) {} name = idx < cnt ? PRINTERS_B[idx].name : NULL; }
 	else { for (cnt = 0; PRINTERS_C[cnt].name; cnt++) {} name = idx < cnt ? PRINTERS_C[idx].name : NULL; }
+	if (fam == 'S') {
+		/* struct / limb-array printers: a valid object in an exactly sized heap block (ASan) and, in a second call, followed by the magic region */
+		const void *obj = NULL; size_t sz = 0; const char *ty; uint8_t *blk; int pass2; long n2; uint8_t *cap; const char *enc = NULL;
+		struct { uint64_t x[4], y[4]; } aff;
+		for (cnt = 0; PRINTERS_S[cnt].name; cnt++) {}
+		if (idx >= cnt) { printf("END"); free(buf); return; }
+		name = PRINTERS_S[idx].name; ty = PRINTERS_S[idx].type;
+		c = malloc(sizeof *c); prepare(c, strtoull(w[3], NULL, 10)); ctx_bytes(c, magic, 16);
+		if (strstr(ty, "SM9")) prepare9(c);
+		if (!strcmp(ty, "uint64_t")) { obj = c->sm2.private_key; sz = !strcmp(name, "gf128_print") ? 16 : 32; }
+		else if (!strcmp(ty, "SM2_KEY")) { obj = &c->sm2; sz = sizeof(SM2_KEY); }
+		else if (!strcmp(ty, "SM2_Z256_POINT")) { obj = &c->sm2.public_key; sz = sizeof(SM2_Z256_POINT); }
+		else if (!strcmp(ty, "SM2_Z256_AFFINE_POINT")) { memcpy(&aff, &c->sm2.public_key, sizeof aff); obj = &aff; sz = sizeof aff; }
+		else if (!strcmp(ty, "SM9_ENC_KEY")) { obj = &c->s9ekA; sz = sizeof c->s9ekA; }
+		else if (!strcmp(ty, "SM9_ENC_MASTER_KEY")) { obj = &c->s9em; sz = sizeof c->s9em; }
+		else if (!strcmp(ty, "SM9_SIGN_KEY")) { obj = &c->s9sk; sz = sizeof c->s9sk; }
+		else if (!strcmp(ty, "SM9_SIGN_MASTER_KEY")) { obj = &c->s9sm; sz = sizeof c->s9sm; }
+		else if (!strcmp(ty, "SM9_Z256_POINT")) { obj = &c->s9em.Ppube; sz = sizeof c->s9em.Ppube; }
+		else if (!strcmp(ty, "SM9_Z256_TWIST_POINT")) { obj = &c->s9sm.Ppubs; sz = sizeof c->s9sm.Ppubs; }
+		if (!obj) { printf("SKIP name=%s type=%s (no object of that type in the harness)", name, ty); free(c); free(buf); return; }
+		{ char path[] = "/tmp/verif_c19p_XXXXXX"; cap_fd = mkstemp(path); unlink(path); cap_fp = fdopen(cap_fd, "w+"); }
+		quiet_stderr();
+		for (pass2 = 0; pass2 < 2; pass2++) {
+			size_t i;
+			blk = malloc(sz + (pass2 ? CAN : 0)); memcpy(blk, obj, sz);
+			for (i = 0; pass2 && i < CAN; i++) blk[sz + i] = magic[i % 16];
+			rewind(cap_fp); if (ftruncate(cap_fd, 0) != 0) {}
+			PRINTERS_S[idx].f(cap_fp, 0, 0, "x", blk);
+			fflush(cap_fp); n2 = ftell(cap_fp);
+			if (pass2 && n2 > 0) { cap = malloc((size_t)n2 + 1); rewind(cap_fp); n2 = (long)fread(cap, 1, (size_t)n2, cap_fp); enc = scan_magic(cap, (size_t)n2); free(cap); }
+			free(blk);
+		}
+		if (enc) printf("LEAK name=%s sample=%s mutation=0 enc=%s", name, ty, enc); else printf("CLEAN name=%s calls=2 printed=%ld", name, n2);
+		fclose(cap_fp); free(c); free(buf);
+		return;
+	}
 	if (!name) { printf("END"); free(buf); return; }
 	c = malloc(sizeof *c); prepare(c, strtoull(w[3], NULL, 10)); ctx_bytes(c, magic, 16);
 	if (!NS) build_samples(c);
